@@ -1,8 +1,8 @@
 package props
 
 import (
-	"strings"
 	"go/token"
+	"strings"
 
 	"godcheck/core"
 
@@ -12,6 +12,44 @@ import (
 // c15Extra: rules added after the third independent seeding round.
 func c15Extra(r *core.Run, pkg string) {
 	p := r.P
+	r.Check("D4/K1/retry-deadline-armed-per-attempt", "a request to etcd that is retried in a loop gets its deadline per attempt: where a call of an EtcdClient method sits in a loop and its context comes from context.WithTimeout/WithDeadline, that context is created inside the same loop (a deadline armed once before the loop expires during the first failed attempts; every later retry then fails at once and the snapshot is never loaded)", func(o *core.O) {
+		n := 0
+		for _, f := range p.PkgFuncs(pkg) {
+			for _, c := range core.Calls(f, func(in ssa.Instruction) bool {
+				c := core.AsCall(in)
+				return c != nil && c.Common().IsInvoke() && strings.HasSuffix(c.Common().Value.Type().String(), "EtcdClient") && len(c.Common().Args) > 0
+			}) {
+				call, ok := c.(*ssa.Call)
+				if !ok {
+					continue
+				}
+				if _, inLoop := core.Reach(core.Q{From: []core.At{core.After(call)}, Target: core.Is(call)}); !inLoop {
+					continue
+				}
+				for _, leaf := range gxPhiLeaves(core.Forward(call.Call.Args[0])) {
+					mk, idx := core.ResultOf(core.Forward(leaf))
+					if mk == nil || idx != 0 {
+						continue
+					}
+					switch core.CalleeName(mk) {
+					case "context.WithTimeout", "context.WithDeadline":
+					default:
+						continue
+					}
+					n++
+					r.Fn(core.FuncName(f))
+					if _, again := core.Reach(core.Q{From: []core.At{core.After(call)}, Target: core.Is(mk)}); !again {
+						o.Fail(p.InstrPos(call), "%s retries %s in a loop with a context whose deadline was armed once, before the loop (%s): after the first failures the deadline has passed, every further attempt fails immediately and the loop never ends - the subscriber never gets the snapshot", core.FuncName(f), call.Call.Method.Name(), p.InstrPos(mk))
+					}
+				}
+			}
+		}
+		o.Site(n, pkg+": retried etcd requests with a deadline")
+		if n == 0 {
+			o.Unres("no retried EtcdClient request with a context.WithTimeout deadline found in %s", pkg)
+		}
+	})
+
 	r.Check("D4/K2/watch-stops-only-on-done", "the watcher of a key gives up for good only after it saw cluster.done closed; a closed, cancelled or failed watch channel leads to a new watch", func(o *core.O) {
 		// role: the stream function selects on the channel returned by EtcdClient.Watch and on cluster.done
 		isWatchCh := func(v ssa.Value) bool {
